@@ -204,6 +204,136 @@ def check_key_source_table(chk, F):
     chk.sample({"key-source table": "%d x %d path pairs" % (len(paths), len(paths))})
 
 
+# ---- R17.9 completing a plan: placeholder -> witness element ---------------------------------------------------------------
+
+def check_placeholder_completion(chk, F, rid="R17.9"):
+    from ..interp import Machine, Adt, PyVec, Panic, some, NONE
+    from ..builtins import deref
+    chk.rule(rid, "Placeholder::satisfy_self (the step that turns a plan's template into the witness): every placeholder "
+                  "becomes exactly the element it stands for - a key in its own serialization (x-only 32, compressed 33, "
+                  "uncompressed 65 bytes), the signature / preimage the satisfier holds for that very key / hash / leaf, 32 "
+                  "zero bytes, the empty and the one-byte vector, the leaf script, the control block - and None exactly when the "
+                  "satisfier lacks it; decision table over all placeholder kinds x key forms x satisfier holdings")
+    PH = "miniscript::satisfy::Placeholder"
+    SST = "miniscript::satisfy::SchnorrSigType"
+    ps = [q for q in F.fns if q.endswith("Placeholder::<Pk>::satisfy_self")]
+    if len(ps) != 1:
+        chk.fail(rid, "anchor", "Placeholder::satisfy_self not found", kind="unanalysable")
+        return
+    chk.saw(ps[0])
+    holdings = {}
+
+    def form(pk, which):
+        pk = deref(pk)
+        name, comp = pk.fields["inner"], pk.fields["compressed"]
+        if which == "own":
+            which = "compressed" if comp else "uncompressed"
+        return ("bytes", name, which)
+    m = Machine(F, strict=True)
+    h = m.hooks
+    h["bitcoin::PublicKey::to_bytes"] = lambda m_, a, c: form(a[0], "own")
+    h["bitcoin::secp256k1::PublicKey::serialize"] = lambda m_, a, c: ("bytes", deref(a[0]), "compressed")
+    h["bitcoin::XOnlyPublicKey::serialize"] = lambda m_, a, c: ("bytes", deref(a[0])[1], "x-only")
+    h["bitcoin::secp256k1::XOnlyPublicKey::serialize"] = h["bitcoin::XOnlyPublicKey::serialize"]
+    h["ToPublicKey::to_public_key"] = lambda m_, a, c: deref(a[0])
+    h["ToPublicKey::to_x_only_pubkey"] = lambda m_, a, c: ("xonly", deref(a[0]).fields["inner"])
+    for nm in ("bitcoin::ecdsa::Signature::to_vec", "bitcoin::taproot::Signature::to_vec"):
+        h[nm] = lambda m_, a, c: ("sigbytes", deref(a[0]))
+    h["bitcoin::Script::to_bytes"] = lambda m_, a, c: ("scriptbytes", deref(a[0]))
+    h["bitcoin::ScriptBuf::to_bytes"] = h["bitcoin::Script::to_bytes"]
+    h["bitcoin::taproot::ControlBlock::serialize"] = lambda m_, a, c: ("cbbytes", deref(a[0]))
+
+    def look(name):
+        def f(m_, a, c):
+            k = tuple(repr(deref(x)) for x in a[1:])
+            v = holdings.get((name, k))
+            return some(v) if v is not None else NONE
+        return f
+    LOOKS = ("lookup_ecdsa_sig", "lookup_tap_key_spend_sig", "lookup_tap_leaf_script_sig", "lookup_raw_pkh_pk", "lookup_raw_pkh_ecdsa_sig",
+             "lookup_raw_pkh_tap_leaf_script_sig", "lookup_raw_pkh_x_only_pk", "lookup_sha256", "lookup_hash256", "lookup_ripemd160",
+             "lookup_hash160")
+    for nm in LOOKS:
+        h["Satisfier::" + nm] = look(nm)
+        h["miniscript::satisfy::Satisfier::" + nm] = look(nm)
+
+    def key(name, comp=True):
+        return Adt("bitcoin::PublicKey", "PublicKey", {"compressed": comp, "inner": name})
+    K, U = key("K"), key("U", False)
+    LEAF = Term("leafhash")
+    PKH = Term("pkh")
+
+    def vecof(v):
+        v = deref(v)
+        return list(v.items) if isinstance(v, PyVec) else v
+    cases = []
+    # (name, placeholder, holdings, expected)
+    cases.append(("Pubkey|x-only", Adt(PH, "Pubkey", {"0": K, "1": 33}), {}, ("bytes", "K", "x-only")))
+    cases.append(("Pubkey|compressed", Adt(PH, "Pubkey", {"0": K, "1": 34}), {}, ("bytes", "K", "compressed")))
+    cases.append(("Pubkey|uncompressed", Adt(PH, "Pubkey", {"0": U, "1": 66}), {}, ("bytes", "U", "uncompressed")))
+    for pkv, nm, size in ((K, "compressed", 34), (U, "uncompressed", 66)):
+        want = ("bytes", pkv.fields["inner"], nm)
+        cases.append(("PubkeyHash|pk|" + nm, Adt(PH, "PubkeyHash", {"0": PKH, "1": size}),
+                      {("lookup_raw_pkh_pk", (repr(PKH),)): pkv}, want))
+        cases.append(("PubkeyHash|via-sig|" + nm, Adt(PH, "PubkeyHash", {"0": PKH, "1": size}),
+                      {("lookup_raw_pkh_ecdsa_sig", (repr(PKH),)): (pkv, Term("sig"))}, want))
+    cases.append(("PubkeyHash|unknown", Adt(PH, "PubkeyHash", {"0": PKH, "1": 34}), {}, None))
+    for v, lk in (("Sha256Preimage", "lookup_sha256"), ("Hash256Preimage", "lookup_hash256"), ("Ripemd160Preimage", "lookup_ripemd160"),
+                  ("Hash160Preimage", "lookup_hash160")):
+        cases.append((v + "|known", Adt(PH, v, {"0": "H"}), {(lk, (repr("H"),)): PyVec([7] * 32)}, [7] * 32))
+        cases.append((v + "|other-hash", Adt(PH, v, {"0": "H"}), {(lk, (repr("G"),)): PyVec([7] * 32)}, None))
+    cases.append(("EcdsaSigPk|held", Adt(PH, "EcdsaSigPk", {"0": K}), {("lookup_ecdsa_sig", (repr(K),)): Term("sigK")}, ("sigbytes", Term("sigK"))))
+    cases.append(("EcdsaSigPk|other-key", Adt(PH, "EcdsaSigPk", {"0": K}), {("lookup_ecdsa_sig", (repr(U),)): Term("sigU")}, None))
+    cases.append(("EcdsaSigPkHash|held", Adt(PH, "EcdsaSigPkHash", {"0": PKH}),
+                  {("lookup_raw_pkh_ecdsa_sig", (repr(PKH),)): (K, Term("sigK"))}, ("sigbytes", Term("sigK"))))
+    cases.append(("EcdsaSigPkHash|none", Adt(PH, "EcdsaSigPkHash", {"0": PKH}), {}, None))
+    ss = Adt(SST, "ScriptSpend", {"leaf_hash": LEAF})
+    ks = Adt(SST, "KeySpend", {"merkle_root": NONE})
+    cases.append(("SchnorrSigPk|script|held", Adt(PH, "SchnorrSigPk", {"0": K, "1": ss, "2": 64}),
+                  {("lookup_tap_leaf_script_sig", (repr(K), repr(LEAF))): Term("ssig")}, ("sigbytes", Term("ssig"))))
+    cases.append(("SchnorrSigPk|script|only-key-spend-sig", Adt(PH, "SchnorrSigPk", {"0": K, "1": ss, "2": 64}),
+                  {("lookup_tap_key_spend_sig", (repr(K),)): Term("ksig")}, None))
+    cases.append(("SchnorrSigPk|key|held", Adt(PH, "SchnorrSigPk", {"0": K, "1": ks, "2": 64}),
+                  {("lookup_tap_key_spend_sig", (repr(K),)): Term("ksig")}, ("sigbytes", Term("ksig"))))
+    cases.append(("SchnorrSigPk|key|only-leaf-sig", Adt(PH, "SchnorrSigPk", {"0": K, "1": ks, "2": 64}),
+                  {("lookup_tap_leaf_script_sig", (repr(K), repr(LEAF))): Term("ssig")}, None))
+    cases.append(("SchnorrSigPkHash|held", Adt(PH, "SchnorrSigPkHash", {"0": PKH, "1": LEAF, "2": 64}),
+                  {("lookup_raw_pkh_tap_leaf_script_sig", (repr((PKH, LEAF)),)): (Term("xk"), Term("ssig"))}, ("sigbytes", Term("ssig"))))
+    cases.append(("HashDissatisfaction", Adt(PH, "HashDissatisfaction", {}), {}, [0] * 32))
+    cases.append(("PushZero", Adt(PH, "PushZero", {}), {}, []))
+    cases.append(("PushOne", Adt(PH, "PushOne", {}), {}, [1]))
+    cases.append(("TapScript", Adt(PH, "TapScript", {"0": Term("leafscript")}), {}, ("scriptbytes", Term("leafscript"))))
+    cases.append(("TapControlBlock", Adt(PH, "TapControlBlock", {"0": Term("cb")}), {}, ("cbbytes", Term("cb"))))
+    # debug_assert!(len == size) lines measure opaque byte tokens: give them a length
+    h["std::vec::Vec::<T, A>::len"] = lambda m_, a, c: B_NOT
+    import msverif.builtins as BB
+    B_NOT = BB.NOT_HANDLED
+
+    def vlen(m_, a, c):
+        v = deref(a[0])
+        if isinstance(v, tuple) and v and v[0] == "bytes":
+            return {"x-only": 32, "compressed": 33, "uncompressed": 65}[v[2]]
+        if isinstance(v, tuple) and v and v[0] == "sigbytes":
+            return 64
+        return BB.NOT_HANDLED
+    h["std::vec::Vec::<T, A>::len"] = vlen
+    h["core::slice::<impl [T]>::len"] = vlen
+    n = 0
+    for name, ph, hold, want in cases:
+        holdings.clear()
+        holdings.update(hold)
+        n += 1
+        try:
+            r = m.call_callee({"def": ps[0], "resolved": ps[0], "name": "satisfy_self", "targs": ["bitcoin::PublicKey", "SAT"]},
+                              [ph, Term("satisfier")])
+            got = None if r.variant == "None" else vecof(r.fields["0"])
+            chk.obligation(rid, repr(got) == repr(want), name, "satisfy_self(%s) gives %r, expected %r" % (name, got, want), F.fns[ps[0]]["span"])
+        except Unsupported as e:
+            chk.fail(rid, "unanalysable:" + name, "unanalysable: %s" % e, where=e.where, kind="unanalysable")
+        except Panic as e:
+            chk.fail(rid, name, "panic: %s" % e, F.fns[ps[0]]["span"])
+    chk.floor(rid, "placeholder cases", n, 25)
+
+
 def run(chk):
     F = chk.facts()
     chk.explanation = (
@@ -237,3 +367,4 @@ def run(chk):
               "the planner uses evaluated with a modelled AssetProvider: the absolute / relative lock a template reports is "
               "necessary and sufficient for its witness in the reference execution - the spend validates with it, fails with "
               "one less and with the other unit, and a template that reports no lock needs none")
+    chk.guard("R17.9", "placeholder-completion", check_placeholder_completion, chk, F)
